@@ -214,6 +214,9 @@ Definition asset_due (c : hcase) : bool :=
 Definition outlink_due (c : hcase) : bool :=
   negb (has_base (h_dom c)) && guards_pass c && hops_allow c.
 
+(* [html_only] = the theorem's reading (the child made from this very string normalises to the
+   expected URL, in a response handed to the HTML extractor); otherwise the property text's:
+   some child normalises to the expected URL *)
 Definition resolved_ok (html_only : bool) (c : hcase) (u : purl) : bool :=
   match pu_ref u with
   | None => true
@@ -221,8 +224,10 @@ Definition resolved_ok (html_only : bool) (c : hcase) (u : purl) : bool :=
     if pu_anchor u
     then negb (outlink_due c) || has_value (expected c r) (h_norm_outlinks c)
     else negb (asset_due c) || (html_only && negb (h_html c)) || bytes_eqb (pu_raw u) (page_str c)
-         || obytes_eqb (match lookup (pu_raw u) (h_norm_assets c) with Some o => o | None => None end)
-                       (Some (expected c r))
+         || (if html_only
+             then obytes_eqb (match lookup (pu_raw u) (h_norm_assets c) with Some o => o | None => None end)
+                             (Some (expected c r))
+             else has_value (expected c r) (h_norm_assets c))
   end.
 
 (* monitor 2 - requested_unless_excused: every planted simple reference outside the named
